@@ -2,7 +2,8 @@
 """merge_translate.py <other translate.py> — add the top-level definitions and GENERATORS entries that the other file has
 and /verif/harness/translate.py lacks (agents only ADD a generator function + its entry)."""
 import ast, re, sys
-cur_p = "/verif/harness/translate.py"
+import os
+cur_p = os.environ.get("INTEGRATE_INTO", "/verif") + "/harness/translate.py"
 cur, oth = open(cur_p).read(), open(sys.argv[1]).read()
 ct, ot = ast.parse(cur), ast.parse(oth)
 def names(t):
